@@ -112,3 +112,34 @@ func specPlain6(p *packets.FrameParser) bool {
 //@ ensures[C10.entry.atom]  ret1 != nil ==> ret0 == nil
 //@ ensures[C03.entry.hops]  ret1 == nil ==> ret0 != nil && forall(i, 0, len(ret0.Hops), ret0.Hops[i] != nil)
 //@ modifies *
+
+// specProbeID: the per-probe identifier of the probe with TTL ttl: the IPv4 IP-ID 41821+ttl, or for IPv6 the UDP length
+// 8+5+ttl (the payload is made ttl bytes longer than the 5-byte magic).
+func specProbeID(u *udpDriver, ttl uint8) uint16 {
+	if u.config.Target.To4() != nil {
+		return 41821 + uint16(ttl)
+	}
+	return 5 + uint16(ttl) + 8
+}
+
+//@ func (*udpDriver).storeProbe
+//@ inline
+//@ safety C06
+//@ requires[pre.nonnil]   u != nil && u.sentProbes != nil
+
+//@ func (*udpDriver).SendProbe
+//@ safety C06 C05
+//@ requires[pre.nonnil]   u != nil && u.sink != nil && u.sentProbes != nil && u.config != nil && u.config.buffer != nil
+//@ requires[pre.past]     forall(k, 0, 65536, u.sentProbes[k].sendTime <= now())
+//@ ensures[C06.once]      ret0 == nil ==> !old(has(u.sentProbes, specProbeID(u, ttl))) && has(u.sentProbes, specProbeID(u, ttl)) && u.sentProbes[specProbeID(u, ttl)].ttl == ttl && u.sentProbes[specProbeID(u, ttl)].sendTime != 0
+//@ ensures[C06.others]    forall(k, 0, 65536, k != int(specProbeID(u, ttl)) ==> u.sentProbes[k] == old(u.sentProbes[k]) && has(u.sentProbes, k) == old(has(u.sentProbes, k)))
+//@ ensures[C05.stamp]     ret0 == nil ==> wrN == old(wrN)+1 && u.sentProbes[specProbeID(u, ttl)].sendTime <= wrClock && u.sentProbes[specProbeID(u, ttl)].sendTime >= old(now())
+//@ ensures[C05.past]      forall(k, 0, 65536, u.sentProbes[k].sendTime <= now())
+//@ ensures[C06.wire.ttl]  ret0 == nil ==> ghost(ser.ttl) == int(ttl) && ghost(ser.proto) == 17
+//@ ensures[C06.wire.id4]  ret0 == nil && u.config.Target.To4() != nil ==> ghost(ser.ipid) == 41821 + int(ttl) && ghost(ser.version) == 4
+//@ ensures[C06.wire.port] ret0 == nil ==> ghost(ser.sport) == int(u.config.srcPort) && ghost(ser.dport) == int(u.config.TargetPort)
+//@ ensures[C06.wire.opts] ret0 == nil ==> ghost(ser.fix) && ghost(ser.csum) && ghost(ser.pseudo)
+//@ ensures[C10.send.wrap] ret0 != nil ==> noRepoErr(ret0)
+//@ lemma[C06.inject4]     forall(a, 0, 256, forall(b, 0, 256, a != b ==> (41821 + a) % 65536 != (41821 + b) % 65536))
+//@ lemma[C06.inject6]     forall(a, 0, 256, forall(b, 0, 256, a != b ==> (13 + a) % 65536 != (13 + b) % 65536))
+//@ modifies u.mu, map(u.sentProbes), UDPv4.buffer, ghost clock, ghost wrN, ghost wrClock
